@@ -135,7 +135,7 @@ def _solve_one(job):
     ob, ents, ob2 = items[oi]
     rec = {"oid": ob.oid, "kind": ob.kind, "label": ob.label, "note": ob.note, "where": ob.where, "kf": None}
     # first attempt: 45 s wall per pass (obligations of the unchanged tree take seconds); the retry gets 120 s
-    tmo = 120000 if rlimit > BASE_RLIMIT[0] else 45000
+    tmo = 300000 if rlimit >= BASE_RLIMIT[0] * 10 else (120000 if rlimit > BASE_RLIMIT[0] else 45000)
     if ents:
         check_obligation(vc, ob2, rlimit=rlimit, timeout_ms=tmo)
         rec.update(status="known-finding", backend=None, time=0.0, model=None)
@@ -348,6 +348,26 @@ def run_check(prop, args, seed, t0):
             sres = [(fi, oi, dict(redo[(fi, oi)], retried=True)) if (fi, oi) in redo else (fi, oi, rec)
                     for (fi, oi, rec) in sres]
         bresults = bres_async.get()
+        # last resort for obligations of the committed baseline that are still `unknown`: they would be reported as
+        # violations, so they get one more attempt with ten times the budget, one at a time, on an otherwise idle
+        # machine (the bounded stand-ins have finished) -- a verdict must not depend on how busy the cores were
+        last = [(fi, oi, BASE_RLIMIT[0] * 10, both) for (fi, oi, rec), (_fi, _oi, _rl, both) in
+                [(x, y) for x, y in zip(sres, sjobs)]
+                if oi >= 0 and (rec.get("status") == "unknown" or (rec.get("kf") or {}).get("status") == "unknown")
+                and _PREP[fi][3][oi][0].oid in baseline]
+        # (pointless when a violation is certain anyway: a refuted obligation or a failing bounded case)
+        certain = any(r2.get("status") == "refuted" for (_f, o2, r2) in sres if o2 >= 0) or \
+            any((b or {}).get("failures") for b in bresults if isinstance(b, dict)) or \
+            any(c.get("failures") for b in bresults if isinstance(b, dict) for c in b.get("checks", []))
+        if last and not certain:
+            import multiprocessing as _mp
+            for job in last:
+                say("note: last attempt for %s (still unknown; 10x budget, alone)" % _PREP[job[0]][3][job[1]][0].oid)
+                with _mp.get_context("fork").Pool(1) as solo:
+                    fi, oi, rec = solo.apply(_solve_one, (job,))
+                sres = [(f2, o2, dict(rec, retried=True)) if (f2, o2) == (fi, oi) else (f2, o2, r2) for (f2, o2, r2) in sres]
+                if rec.get("status") == "unknown" or (rec.get("kf") or {}).get("status") == "unknown":
+                    break       # this one will be reported: the verdict no longer depends on the others
     presults = []
     for fi, (fid, vc, info, items) in enumerate(_PREP):
         obls = [None] * len(items)
